@@ -524,4 +524,36 @@ func replaceValidity(der []byte, pos int, tag byte, content []byte) ([]byte, err
 	return encTLV(0x30, concat(encTLV(0x30, concat(items...)), parts[1].full, parts[2].full)), nil
 }
 
+// replaceTBSField replaces the field of the to-be-signed part at position idx (counted after the optional version:
+// 0 serial, 1 signature, 2 issuer, 3 validity, 4 subject, 5 subjectPublicKeyInfo) by the given complete TLV.
+func replaceTBSField(der []byte, idx int, full []byte) ([]byte, error) {
+	top, err := parseTLVs(der)
+	if err != nil || len(top) != 1 {
+		return nil, fmt.Errorf("not a certificate")
+	}
+	parts, err := parseTLVs(top[0].content)
+	if err != nil || len(parts) != 3 {
+		return nil, fmt.Errorf("not a certificate")
+	}
+	tbs, err := parseTLVs(parts[0].content)
+	if err != nil {
+		return nil, err
+	}
+	if len(tbs) > 0 && tbs[0].tag == 0xA0 {
+		idx++
+	}
+	if len(tbs) <= idx {
+		return nil, fmt.Errorf("no such field")
+	}
+	var items [][]byte
+	for i, it := range tbs {
+		if i == idx {
+			items = append(items, full)
+		} else {
+			items = append(items, it.full)
+		}
+	}
+	return encTLV(0x30, concat(encTLV(0x30, concat(items...)), parts[1].full, parts[2].full)), nil
+}
+
 var _ = asn1.NullBytes
